@@ -55,6 +55,8 @@ def recorder_summary(recorder):
                 else {
                     "type": type(n.failure_info.failure).__name__,
                     "title": getattr(n.failure_info.failure, "title", None),
+                    "operation": getattr(n.failure_info.failure, "operation", None),
+                    "status_code": getattr(n.failure_info.failure, "status_code", None),
                     "code_sample": n.failure_info.code_sample,
                 },
             }
@@ -131,6 +133,7 @@ class RunResult:
         self.base_url = ""
         self.files: dict[str, bytes] = {}
         self.wall = 0.0
+        self.reported_failures = None
 
     def api_requests(self):
         return [r for r in self.server_log if not r["path"].startswith("/__schema__")]
@@ -410,6 +413,19 @@ def run_api(
             controller.uninstall()
         result.exit_code = ctx.exit_code
         result.server_log = server.snapshot()
+        # what the CLI's own bookkeeping (the source of the FAILURES section and of the JUnit report) retained
+        result.reported_failures = [
+            {
+                "label": label,
+                "type": type(failure).__name__,
+                "operation": getattr(failure, "operation", None),
+                "status_code": getattr(failure, "status_code", None),
+                "title": getattr(failure, "title", None),
+            }
+            for label, by_case in ctx.statistic.failures.items()
+            for group in by_case.values()
+            for failure in group.failures
+        ]
     result.history, result.fired, result.marks = controller.history, controller.fired, controller.marks
     result.signature = controller.signature()
     result.wall = time.monotonic() - started
